@@ -173,9 +173,7 @@ structure CholState (α : Type*) (n : ℕ) where
 def updateChol [DecidableEq α] [Div α] [One α] (cplx : Bool) (chol : Mat n n α → Option (Mat n n α))
     (ldl : Bool → Mat n n α → Mat n n α × Mat n n α × (Fin n → Fin n)) (inv : Mat n n α → Mat n n α)
     (prev : Option (CholState α n)) (A : Mat n n α) : CholState α n :=
-  let prevBackup := match prev with
-    | some s => s.backup
-    | none => none
+  let prevBackup := prev.bind (·.backup)
   match chol A with
   | some U => { success := true, U := U, backup := prevBackup }
   | none =>
@@ -200,10 +198,17 @@ def solveChol (tri : TriSolve α n k) (s : CholState α n) (t : Trans) (B : Mat 
 /-- the only authored logic is the check of `trans` and the mapping of the mode string, which is the identity -/
 def sparseTransMap (t : String) : Except String Trans :=
   if t = "N" then .ok .N else if t = "T" then .ok .T else if t = "H" then .ok .H else .error "TypeError"
-def solveSparseLU (splu : Trans → Mat n k α → Mat n k α) (t : String) (B : Mat n k α) : Except String (Mat n k α) :=
+/-- `SolverSparseLU.solve`: `splu` ≙ `self.inv.solve(·, trans)`.  `iscomplexA` is `self.iscomplex` (set by `update`),
+    `rhsComplex` is `np.iscomplexobj(rhs)`, `reB`/`imB` are `rhs.real`/`rhs.imag` and `I` the imaginary unit: a real
+    factorisation is applied to the real and imaginary parts separately. -/
+def solveSparseLU (splu : Trans → Mat n k α → Mat n k α) (iscomplexA rhsComplex : Bool) (reB imB : Mat n k α) (I : α)
+    (t : String) (B : Mat n k α) : Except String (Mat n k α) :=
   match sparseTransMap t with
-  | .ok tt => .ok (splu tt B)
   | .error e => .error e
+  | .ok tt =>
+    if !iscomplexA && rhsComplex then
+      withMemo (splu tt reB) fun xr => withMemo (splu tt imB) fun xi => .ok (fun i j => xr i j + I * xi i j)
+    else .ok (splu tt B)
 
 /-- all dense solvers end with `raise TypeError` for any other mode string -/
 def denseTrans (t : String) : Except String Trans := sparseTransMap t
